@@ -155,7 +155,7 @@ Definition e_unpack_var (v : uval) : uval :=
 Definition e_bit_next (v : uval) : uval := vN (bit_next (getN v)).
 
 (* ---- C06 / C08 ---- *)
-From PV Require Import Model.ParamSet Spec.C08 Spec.C06.
+From PV Require Import Model.ParamSet Model.ParamSetHop Spec.C08 Spec.C06.
 Definition gettriple (v : uval) : triple := mkTriple (getZ (arg 0 v)) (getZ (arg 1 v)) (getZ (arg 2 v)).
 Definition vtriple (t : triple) : uval := VL [VZ (tv t); VZ (tlo t); VZ (thi t)].
 Definition getpev (v : uval) : pev :=
@@ -174,6 +174,14 @@ Definition gettracking (v : uval) : nat -> bool := fun i => nth i (map getbool (
 Definition e_run_set (v : uval) : uval :=
   let r := run_set (gettracking (arg 0 v)) (gettriple (arg 1 v)) (getZ (arg 2 v)) (getnat (arg 3 v))
                    (map getpev (getL (arg 4 v))) in
+  VL [vlist (vlist vpout) (fst r); vtriple (vals (snd r))].
+(* [tracking; triple; req; retries; reports inside the first transmission step; events] with events
+   [0; reports inside that step] (timer expiry) | [1; triple] (report) -> [outputs per point; triple held at the end] *)
+Definition getphev (v : uval) : phev :=
+  match getN (arg 0 v) with 0%N => HTick (map gettriple (getL (arg 1 v))) | _ => HReport (gettriple (arg 1 v)) end.
+Definition e_run_set_hop (v : uval) : uval :=
+  let r := run_set_hop true (gettracking (arg 0 v)) (gettriple (arg 1 v)) (getZ (arg 2 v)) (getnat (arg 3 v))
+                       (map gettriple (getL (arg 4 v))) (map getphev (getL (arg 5 v))) in
   VL [vlist (vlist vpout) (fst r); vtriple (vals (snd r))].
 (* [tracking; triple; req; retries; events; observed outputs per point] *)
 Definition e_P08 (v : uval) : uval :=
@@ -403,7 +411,9 @@ Definition getcstate (v : uval) : cstate :=
        (getnatpairs (arg 6 v)) (getnatpairs (arg 7 v)).
 Definition vcresult (r : cresult) : uval := VL [vbool (r_returns r); vN (r_seconds r); vnat (r_left r); vbool (r_writer_closed r)].
 (* the walk of the connection's task set is not observable from outside: the reconnect chain as one running task *)
-Definition e_close (v : uval) : uval := vcresult (close true true true true true [s_reconnecting (getcstate v)] 0 (getcstate v)).
+(* [state fields (8); stall: [] never / [d] confirmed after d seconds] *)
+Definition e_close (v : uval) : uval :=
+  vcresult (close true true true true true true [s_reconnecting (getcstate v)] 0 (getopt getN (arg 8 v)) (getcstate v)).
 (* observed: [returns; seconds; tasks left; writer closed] *)
 Definition e_P12 (v : uval) : uval :=
   vbool (P12 (mkCR (getbool (arg 0 v)) (getN (arg 1 v)) (getnat (arg 2 v)) (getbool (arg 3 v)))).
